@@ -29,6 +29,7 @@ def load (files : List (Bytes × Bytes)) : Option Heads :=
 
 /-- `Refs.AddBranch` (in-memory part) -/
 def add (h : Heads) (n id : Bytes) : Res Heads :=
+  if !validName n then .err else
   match getBranchPos h n with
   | .crash => .crash
   | .found _ => .err
@@ -36,6 +37,7 @@ def add (h : Heads) (n id : Bytes) : Res Heads :=
 
 /-- `Refs.RenameBranch` (in-memory part) -/
 def rename (h : Heads) (cur new : Bytes) : Res Heads :=
+  if !validName new then .err else
   match getBranchPos h new with
   | .crash => .crash
   | .found _ => .err
@@ -118,11 +120,11 @@ structure Rec where
 deriving Repr
 
 /-- `timeDiff` of `log.NewRecord`: `Sprintf("%+03d%02d", m/60, m%60)` with `m = offset/60`
-    (repaired: magnitudes after an explicit sign) -/
+    (Go `/` and `%` truncate toward zero; the minutes of a negative offset keep their own sign,
+    e.g. `-03-30`). The reflog reader never parses this field. -/
 def zone (offset : Int) : Bytes :=
   let m := Int.tdiv offset 60
-  let a := m.natAbs
-  (if offset < 0 then 45 else 43) :: (Dec.pad2 (a / 60 : Nat) ++ Dec.pad2 (a % 60 : Nat))
+  Dec.plus03 (Int.tdiv m 60) ++ Dec.pad2 (Int.tmod m 60)
 
 /-- first line of a message (repaired writer: a reflog record is one line) -/
 def firstLine (m : Bytes) : Bytes := (Bytes.cut1 10 m).1
